@@ -467,7 +467,9 @@ def _immutable_result(prog, f, node, depth=0):
         if node.id in f.params():
             return None
         vals = [n.value for n in ast.walk(f.node) if isinstance(n, ast.Assign) and len(n.targets) == 1 and isinstance(n.targets[0], ast.Name) and n.targets[0].id == node.id]
-        other = [n for n in ast.walk(f.node) if not isinstance(n, ast.Assign) and hasattr(n, "target") and any(isinstance(x, ast.Name) and x.id == node.id for x in ast.walk(n.target))]
+        # other ways the NAME is bound (loop target, augmented assignment of the name itself); element updates `name[k] += 1` do not rebind it
+        other = [n for n in ast.walk(f.node) if not isinstance(n, ast.Assign) and hasattr(n, "target")
+                 and any(isinstance(x, ast.Name) and x.id == node.id and isinstance(x.ctx, ast.Store) for x in ast.walk(n.target))]
         if not vals or other:
             return None
         ks = {_immutable_result(prog, f, v, depth + 1) for v in vals}
